@@ -248,6 +248,20 @@ func explodeNode(node *CandidateNode, context Context) error {
 
 // mergeSource is the map a merge key value (or an entry of a merge list) contributes:
 // what an alias stands for, or the map itself when it is written in place
+// isListOfMaps: a non-empty sequence whose elements are maps or aliases of maps - what a merge key may stand for besides a map
+func isListOfMaps(node *CandidateNode) bool {
+	if node == nil || node.Kind != SequenceNode || len(node.Content) == 0 {
+		return false
+	}
+	for _, child := range node.Content {
+		source := mergeSource(child)
+		if source == nil || source.Kind != MappingNode {
+			return false
+		}
+	}
+	return true
+}
+
 func mergeSource(value *CandidateNode) *CandidateNode {
 	if value.Kind == MappingNode {
 		return value
@@ -261,6 +275,15 @@ func applyAlias(node *CandidateNode, alias *CandidateNode, aliasIndex int, newCo
 		return nil
 	}
 	log.Debug("alias: %v", NodeToString(alias))
+	if isListOfMaps(alias) {
+		// an alias that stands for a list of maps: every one is merged, as if the list were written in place
+		for nested := len(alias.Content) - 1; nested >= 0; nested = nested - 1 {
+			if err := applyAlias(node, mergeSource(alias.Content[nested]), aliasIndex, newContent); err != nil {
+				return err
+			}
+		}
+		return nil
+	}
 	if alias.Kind != MappingNode {
 		return fmt.Errorf("merge anchor only supports maps, got %v instead", alias.Tag)
 	}
